@@ -123,7 +123,7 @@ func replayMerge(v *mergeVector) (agree bool, obs map[string]any) {
 }
 
 // modelMerge runs MC_Merge sharded over processes and replays every vector.
-func modelMerge(r *Run, maxLayers int) (states, distinct, vectors, replayed int64, cmd string) {
+func modelMerge(r *Run, maxLayers, fullDepth int) (states, distinct, vectors, replayed int64, cmd string) {
 	nsh := 8
 	var mu sync.Mutex
 	seen := map[[20]byte]bool{}
@@ -133,7 +133,7 @@ func modelMerge(r *Run, maxLayers int) (states, distinct, vectors, replayed int6
 		go func(sh int) {
 			defer wg.Done()
 			dir := filepath.Join(r.Dir, fmt.Sprintf("mc-merge-%d", sh))
-			cfg := fmt.Sprintf("SPECIFICATION Spec\nCONSTANTS\n CharOrder <- AsciiOrder\n LowerSet <- AsciiLower\n MaxFuel = 64\n MaxLayers = %d\n Shard = %d\n NShards = %d\nINVARIANT Bounded\nCHECK_DEADLOCK FALSE\n", maxLayers, sh, nsh)
+			cfg := fmt.Sprintf("SPECIFICATION Spec\nCONSTANTS\n CharOrder <- AsciiOrder\n LowerSet <- AsciiLower\n MaxFuel = 64\n MaxLayers = %d\n FullDepth = %d\n Shard = %d\n NShards = %d\nINVARIANT Bounded\nCHECK_DEADLOCK FALSE\n", maxLayers, fullDepth, sh, nsh)
 			res, err := tlc.RunModelCfg(dir, "MC_Merge", cfg, 2, "4g", 60*time.Minute, func(js []byte) {
 				h := sha1.Sum(js)
 				mu.Lock()
@@ -178,7 +178,7 @@ func modelMerge(r *Run, maxLayers int) (states, distinct, vectors, replayed int6
 }
 
 func C01(r *Run) {
-	mst, mdi, mvec, mrep, mcmd := modelMerge(r, r.Pick(3, 4))
+	mst, mdi, mvec, mrep, mcmd := modelMerge(r, 4, r.Pick(1, 2))
 	r.Logf("model: %d states, %d vectors, %d replayed", mst, mvec, mrep)
 	if mrep < 1000 {
 		Fatal("MC_Merge produced only %d vectors", mrep)
